@@ -15,7 +15,7 @@ RULE = ('Hypothesis draws message (body class incl. empty/block-boundary/binary/
         'encryptor (SKESK with/without encrypted session key, salted/iterated S2K, PKESK RSA/ECDH, SEIPD or tag-9 container, old/new/'
         'partial inner headers) and PGPy decrypts. Non-trivial: >=2 recipients, or non-default cipher/compression, or body > one '
         'cipher block, or foreign-produced; distinct by (direction, cipher, recipient kinds, compression, body class).')
-RULE += ' Backward cases include an SKESK whose own cipher differs (also in key size) from the data cipher. Inner packets also with old-format indeterminate lengths; ECDH session keys padded to 40/48 octets (RFC 6637 8); RSA recipients whose modulus length is not a multiple of 8 bits; messages exported before being signed; the export of the decrypted message must be a grammar-conformant message (no MDC leftovers).'
+RULE += ' Messages of the cleartext framework are encrypted too (refusal or the same text). Backward cases include an SKESK whose own cipher differs (also in key size) from the data cipher. Inner packets also with old-format indeterminate lengths; ECDH session keys padded to 40/48 octets (RFC 6637 8); RSA recipients whose modulus length is not a multiple of 8 bits; messages exported before being signed; the export of the decrypted message must be a grammar-conformant message (no MDC leftovers).'
 ASSUMPTIONS = ['refpgp.enc is an independent RFC 4880 5.1/5.3/5.13/13.9 + RFC 6637 + RFC 3394 implementation sharing only block ciphers, '
                'RSA/ECDH primitives and hashlib with PGPy', 'a supplied session key has exactly the cipher key size (documented precondition)',
                'literal time compared at the wire resolution of one second']
@@ -24,7 +24,8 @@ ASSUMPTIONS = ['refpgp.enc is an independent RFC 4880 5.1/5.3/5.13/13.9 + RFC 66
 def case_strategy(tier):
     big = True
     return st.fixed_dictionaries({
-        'dir': st.sampled_from(['fwd', 'fwd', 'bwd']),
+        'dir': st.sampled_from(['fwd', 'fwd', 'bwd', 'fwd', 'fwd', 'bwd', 'clear']),
+        'text': st.text(alphabet=st.sampled_from(list('abc -ü\n')), max_size=40),
         'msg': enckit.msg_strategy(big),
         'cipher': st.sampled_from(enckit.CIPHERS),
         'recips': enckit.recipient_strategy(fast=(tier == 'quick')),
@@ -240,8 +241,51 @@ def eval_backward(case, rec):
             rec.finding('bwd/content', 'exception/' + harness.exc_key(e), case, repr(e))
 
 
+def eval_cleartext(case, rec):
+    """a message in the cleartext framework (PGPMessage.new(..., cleartext=True)), signed or not, is a message too:
+    encrypting it either is refused or gives something the recipient reads the same text from"""
+    import pgpy
+    from pgpy.constants import SymmetricKeyAlgorithm
+    from pgpy.errors import PGPError, PGPEncryptionError
+    text = case.get('text', 'cleartext message')
+    signers = case['msg']['signers']
+    r = case['recips'][0]
+    rec.case(('clear', case['cipher'], recip_kinds([r])[0], len(signers), bool(text)), True, ['dir/fwd-cleartext-message', 'cipher/%d' % case['cipher'], 'signers/%d' % len(signers)],
+             {'dir': 'fwd', 'form': 'cleartext message', 'text': text, 'signers': signers, 'recipient': recip_kinds([r])[0]})
+    try:
+        msg = pgpy.PGPMessage.new(text, cleartext=True)
+        for kid in signers:
+            msg |= keypool.pgpy_key(keypool.ref_cert(kid, secret=True)).sign(msg)
+        try:
+            if r['t'] == 'pass':
+                e = msg.encrypt(r['pw'], cipher=SymmetricKeyAlgorithm(case['cipher']))
+            else:
+                e = keypool.pgpy_key(enckit.recipient_cert([r['kid']], secret=False)).subkeys
+                e = list(e.values())[0].encrypt(msg, cipher=SymmetricKeyAlgorithm(case['cipher']))
+        except (PGPError, PGPEncryptionError, NotImplementedError, TypeError, ValueError):
+            rec.note('cleartext-message/encryption-refused')
+            return
+        blob = bytes(e)
+    except Exception as ex:   # noqa
+        rec.finding('fwd/encrypt', 'cleartext-message/exception/' + harness.exc_key(ex), case, repr(ex))
+        return
+    try:
+        res = enc.decrypt_message(blob, passphrase=r['pw']) if r['t'] == 'pass' else enc.decrypt_message(blob, seckeys=[keypool.ref_secret(r['kid'])])
+        pk = wire.split_packets(res['plaintext'])
+        if pk and pk[0].tag == 8:
+            pk = wire.split_packets(grammar.decompress(pk[0].body[0], pk[0].body[1:]))
+        lits = [grammar.Literal(p.body) for p in pk if p.tag == 11]
+    except (wire.WireError, Exception) as ex:   # noqa
+        rec.finding('fwd/ref-decrypt', 'cleartext-message/' + type(ex).__name__, case, repr(ex))
+        return
+    if len(lits) != 1 or lits[0].data.decode('utf-8', 'replace').replace('\r\n', '\n') != text.replace('\r\n', '\n'):
+        rec.finding('fwd/ref-plaintext', 'cleartext-message/text-lost', case, 'inner packet tags %r' % [p.tag for p in pk])
+
+
 def evaluate(case, rec):
-    if case['dir'] == 'fwd':
+    if case['dir'] == 'clear':
+        eval_cleartext(case, rec)
+    elif case['dir'] == 'fwd':
         eval_forward(case, rec)
     else:
         eval_backward(case, rec)
@@ -273,6 +317,8 @@ def matrix(arg):
                         'bwd': {'container': 18 if i % 5 else 9, 'esk': bool(i % 2), 'skc': i, 's2k': 'iterated' if i % 3 else 'salted', 'count': 16 + i % 50,
                                 'hdr': ['new', 'old', 'partial', 'new5', 'indeterminate'][i % 5], 'fname': ['', 'f.txt', 'ünï.txt'][i % 3], 't': 1234567890}}
                 evaluate(case, rec)
+                if d == 'fwd' and i % 4 == 1:
+                    evaluate(dict(case, dir='clear', text='cleartext message\n- of two lines'), rec)
     return rec
 
 
